@@ -120,7 +120,7 @@ def popPending (pending : List Pend) (leaves : List String) : List Pend × List 
 
 /-- `chk_hybrid_dep(effect)` with extra dependency carriers (bare temporaries of expression statements). -/
 def chk (st : HSt) (e : ILEffect) (bare : List String) (after : Bool := false) : ILEffect × HSt :=
-  let (popped, rest) := popPending st.pending (tmpsOfEffect e ++ bare)
+  let (popped, rest) := popPending st.pending (bare ++ tmpsOfEffect e)
   if popped.isEmpty then (e, st)
   else
     let deps := popped.map Pend.render
@@ -133,6 +133,15 @@ def extArgs (exts : List String) : List ILPure := exts.map (fun x => .ext (.id x
 /-- the effect of a call of a void sub-routine: `hex_<name>(exts…, args…)` -/
 def vcallEffect (name : String) (exts : List String) (cargs : List ILPure) : ILEffect :=
   .call ("hex_" ++ name) (extArgs exts ++ cargs)
+
+/-- the name of the effect a value call is lowered to: `get_npc` goes through the legacy `c_call` path
+    (`HEX_GET_NPC`), every registered sub-routine is `hex_<name>` -/
+def callxName (name : String) : String :=
+  if name == "get_npc" then "HEX_GET_NPC" else "hex_" ++ name
+
+/-- the effect of a value call with pass-through arguments: `hex_<name>(exts…, args…)` / `HEX_GET_NPC(pkt)` -/
+def callxEffect (name : String) (exts : List String) (cargs : List ILPure) : ILEffect :=
+  .call (callxName name) (extArgs exts ++ cargs)
 
 def gccTmpOf (st : HSt) (c : CE) : Option String :=
   match c.il with
@@ -272,6 +281,20 @@ def compileExprH (env : CEnv) (st : HSt) : CExpr → Except String (CE × HSt)
       let p : Pend := { tmp := tmp, deps := popped.map Pend.render, exec := vcallEffect name exts cargs,
                         setTmp := .setl tmp cv.il, setFirst := false, gcc := true }
       .ok ({ il := .varl tmp, ty := cv.ty, kind := .plain }, { st with pending := rest ++ [p] })
+  | .callx name exts args ret params => do
+      -- a value call like `.call`, the pass-through tokens printed verbatim in front of the converted arguments
+      -- (`hex_get_usr_field(bundle, HEX_REG_FIELD_USR_LPCFG)`, `HEX_GET_NPC(pkt)`, `hex_fcirc_add(bundle, Rx_op, …)`)
+      let (cargs, st) ← compileArgsH env st args params
+      let tmp := s!"h_tmp{st.hyb}"
+      let st := { st with hyb := st.hyb + 1 }
+      let rv : ILPure := if ret.signed then .signed ret.width (.varl "ret_val") else .unsigned ret.width (.varl "ret_val")
+      let (popped, rest) := popPending st.pending (tmpsOfPures cargs)
+      let p : Pend := { tmp := tmp, deps := popped.map Pend.render, exec := callxEffect name exts cargs, setTmp := .setl tmp rv,
+                        setFirst := false, gcc := false }
+      .ok ({ il := .varl tmp, ty := ret.toVT, kind := .plain }, { st with pending := rest ++ [p] })
+  | .xmacro name exts ret =>
+      -- a plugin macro of pass-through tokens only (`HEX_GET_CORRESPONDING_CS(pkt, Mu_op)`): a pure leaf
+      .ok ({ il := .macro (macroRzName name) (extArgs exts), ty := ret.toVT, kind := .plain }, st)
   | e => do
       -- leaves and loads: no side effects
       let r ← compileExpr env e
